@@ -124,6 +124,17 @@ pub fn batch<G: AffineRepr>(
     bp: &BulletproofGens<G>,
     rng_seed: u64,
 ) -> (Result<(), R1CSError>, Vec<u8>, usize) {
+    let (r, rng) = batch_rng::<G>(env, items, bp, rng_seed);
+    (r, rng.log, rng.calls)
+}
+
+/// Same, returning the recording RNG itself (chunk boundaries of every draw).
+pub fn batch_rng<G: AffineRepr>(
+    env: &Env<G>,
+    items: &[(&Program, &[G], &R1CSProof<G>)],
+    bp: &BulletproofGens<G>,
+    rng_seed: u64,
+) -> (Result<(), R1CSError>, crate::rngs::RecordingRng<ChaChaRng>) {
     use crate::interp::cur::{build_verifier, new_transcript};
     let mut rng = crate::rngs::RecordingRng::new(ChaChaRng::seed_from_u64(rng_seed));
     let mut trs: Vec<merlin::Transcript> = items.iter().map(|(p, _, _)| new_transcript(p)).collect();
@@ -132,9 +143,9 @@ pub fn batch<G: AffineRepr>(
         let (v, _st) = build_verifier::<G>(p, vs, tr);
         match v {
             Ok(v) => insts.push((v, *proof)),
-            Err(e) => return (Err(e), rng.log, rng.calls),
+            Err(e) => return (Err(e), rng),
         }
     }
     let r = ark_bulletproofs::r1cs::batch_verify(&mut rng, insts, &env.pc, bp);
-    (r, rng.log, rng.calls)
+    (r, rng)
 }
